@@ -1463,6 +1463,9 @@ class TLSRecordLayer(object):
         self.allegedSrpUsername = None
         self._refCount = 1
         self._recordLayer.handshake_finished = False
+        # state of a previous session on this connection (closeSocket=False)
+        self._middlebox_compat_mode = True
+        self._ccs_sent = False
 
     def _handshakeDone(self, resumed):
         self.resumed = resumed
